@@ -38,11 +38,13 @@ type c12Net struct {
 	closed  bool
 	wg      sync.WaitGroup
 
+	byType map[string]int
+
 	sent, dropped, duplicated, delayed, partitioned, delivered, stepErr int
 }
 
 func c12NewNet(r *verifkit.Run, rng *rand.Rand) *c12Net {
-	return &c12Net{r: r, rng: rng, nodes: map[multiraft.NodeID]*c12Node{}, blocked: map[[2]multiraft.NodeID]bool{}}
+	return &c12Net{r: r, rng: rng, nodes: map[multiraft.NodeID]*c12Node{}, blocked: map[[2]multiraft.NodeID]bool{}, byType: map[string]int{}}
 }
 
 func (n *c12Net) setFaults(f c12Faults) { n.mu.Lock(); n.faults = f; n.mu.Unlock() }
@@ -82,6 +84,9 @@ func (n *c12Net) flushCounters() {
 	n.r.Count("net.blocked_by_partition", n.partitioned)
 	n.r.Count("net.delivered", n.delivered)
 	n.r.Count("net.step_rejected", n.stepErr)
+	for k, v := range n.byType {
+		n.r.Count("net.sent."+k, v)
+	}
 }
 
 type c12Transport struct {
@@ -104,12 +109,20 @@ func (t *c12Transport) Send(_ context.Context, batch []multiraft.Envelope) error
 			continue
 		}
 		to := multiraft.NodeID(env.Message.To)
+		switch env.Message.Type {
+		case raftpb.MsgApp, raftpb.MsgHeartbeat, raftpb.MsgSnap:
+			t.node.cl.mon.noteLeader(uint64(env.SlotID), env.Message.Term, uint64(from))
+		}
 		n.mu.Lock()
 		if n.closed {
 			n.mu.Unlock()
 			return nil
 		}
 		n.sent++
+		switch env.Message.Type {
+		case raftpb.MsgProp, raftpb.MsgSnap, raftpb.MsgTimeoutNow, raftpb.MsgVote, raftpb.MsgPreVote:
+			n.byType[env.Message.Type.String()]++
+		}
 		if n.blocked[[2]multiraft.NodeID{from, to}] {
 			n.partitioned++
 			n.mu.Unlock()
